@@ -40,10 +40,12 @@ def _neutral(op, dtype: np.dtype):
         return dtype.type(0)
     if isinstance(op, red.ProductReductionOperation):
         return dtype.type(1)
-    if isinstance(op, red.MaxReductionOperation):
-        return (dtype.type(-np.inf) if dtype.kind == "f"
-                else np.iinfo(dtype).min)
-    if isinstance(op, red.MinReductionOperation):
+    if isinstance(op, (red.MaxReductionOperation, red.MinReductionOperation)):
+        if dtype.kind not in "fiu":
+            raise RefUnsupported(f"max/min reduction of {dtype}")
+        if isinstance(op, red.MaxReductionOperation):
+            return (dtype.type(-np.inf) if dtype.kind == "f"
+                    else np.iinfo(dtype).min)
         return (dtype.type(np.inf) if dtype.kind == "f"
                 else np.iinfo(dtype).max)
     if isinstance(op, red.AllReductionOperation):
